@@ -108,6 +108,10 @@ def gen(rng, idx, tier, seed):
         spec['inject'] = bool(rng.random() < 0.4)
         if 'reader' in fs:
             spec['inject'] = False
+        elif idx % 10 == 2:
+            # the receiver is a file on disk (one in three written the way
+            # other tools write: packed variables of 16 and 32 bits)
+            spec['disk'] = True
         elif idx % 3 == 2 and 'where' not in kw:
             # command-line string form: one predicate per mask_vals call
             spec['via'] = 'mask_vals'
@@ -664,5 +668,14 @@ def run(spec, res):
             {'binop': run_binop, 'eval': run_eval,
              'mask': run_mask}[spec['mode']](spec, res, f)
         return
+    if spec['mode'] == 'mask' and spec.get('disk'):
+        with harness.casedir() as d, harness.handles() as h:
+            f0 = gen_core.build(spec['file'])
+            if spec['inject']:
+                inject(f0, spec['seed'])
+            g = harness.to_disk(f0, d, h, res=res, foreign=True)
+            if g is not None:
+                res.facet('mask:receiver-on-disk')
+                return run_mask(dict(spec, inject=False), res, g)
     {'binop': run_binop, 'eval': run_eval, 'mask': run_mask}[spec['mode']](
         spec, res)
